@@ -1,6 +1,7 @@
 package main
 
 import (
+	"github.com/insomniacslk/dhcp/rfc1035label"
 	"bytes"
 	"fmt"
 	"net"
@@ -412,6 +413,131 @@ func genC17(r *Run) {
 			r.Fail("set-get-mask", mask.String(), "")
 		}
 		evals += 7
+	}
+	// set/get for every typed constructor, full equality through the accessor table's observers;
+	// read-modify-write: a value obtained from an accessor, edited in place and set again reads back as edited
+	obsOf := func(name string, p *dhcpv4.DHCPv4) string {
+		for _, a := range accessors {
+			if a.name == name {
+				return dumpLine(a.obs(p))
+			}
+		}
+		return "?"
+	}
+	expect := func(clause, name string, p *dhcpv4.DHCPv4, want [][]byte) {
+		evals++
+		if got := obsOf(name, p); got != dumpLine(want) {
+			r.Fail("set-get-"+clause, name, fmt.Sprintf("read back %s, set %s", got, dumpLine(want)))
+		}
+		// the same after a trip over the wire
+		if q, err := dhcpv4.FromBytes(p.ToBytes()); err == nil {
+			if got := obsOf(name, q); got != dumpLine(want) {
+				r.Fail("set-get-wire-"+clause, name, fmt.Sprintf("read back after encode/decode %s, set %s", got, dumpLine(want)))
+			}
+		}
+	}
+	for i := 0; i < r.N(200, 10000); i++ {
+		p, _ := dhcpv4.New()
+		var ips []net.IP
+		var ipsOut [][]byte
+		for k := 1 + r.Rng.Intn(4); k > 0; k-- {
+			ip := net.IP(r.edge(4))
+			ips = append(ips, ip)
+			ipsOut = append(ipsOut, ip)
+		}
+		p.UpdateOption(dhcpv4.OptDNS(ips...))
+		expect("ips", "DNS", p, append([][]byte{someFlag}, ipsOut...))
+		p.UpdateOption(dhcpv4.OptNTPServers(ips...))
+		expect("ips", "NTPServers", p, append([][]byte{someFlag}, ipsOut...))
+		p.UpdateOption(dhcpv4.OptRouter(ips...))
+		expect("ips", "Router", p, append([][]byte{someFlag}, ipsOut...))
+		name := string(r.noNul(1 + r.Rng.Intn(40)))
+		p.UpdateOption(dhcpv4.OptHostName(name))
+		expect("string", "HostName", p, [][]byte{[]byte(name)})
+		p.UpdateOption(dhcpv4.OptDomainName(name))
+		expect("string", "DomainName", p, [][]byte{[]byte(name)})
+		p.UpdateOption(dhcpv4.OptBootFileName(name))
+		expect("string", "BootFileNameOption", p, [][]byte{[]byte(name)})
+		// user classes
+		var cls []string
+		ucOut := [][]byte{someFlag}
+		for k := 1 + r.Rng.Intn(3); k > 0; k-- {
+			c := string(r.Bytes(1 + r.Rng.Intn(8)))
+			cls = append(cls, c)
+			ucOut = append(ucOut, []byte(c))
+		}
+		p.UpdateOption(dhcpv4.OptRFC3004UserClass(cls))
+		expect("user-class", "UserClass", p, ucOut)
+		// vendor-identifying vendor classes, also with empty data (first, middle, last)
+		var ids []dhcpv4.VIVCIdentifier
+		vOut := [][]byte{someFlag}
+		for k := 1 + r.Rng.Intn(3); k > 0; k-- {
+			id := dhcpv4.VIVCIdentifier{EntID: iana.EnterpriseID(r.Rng.Uint32()), Data: r.Bytes(r.Pick(0, 0, 1, 5))}
+			ids = append(ids, id)
+			vOut = append(vOut, be32b(uint32(id.EntID)), id.Data)
+		}
+		p.UpdateOption(dhcpv4.OptVIVC(ids...))
+		expect("vivc", "VIVC", p, vOut)
+		// parameter request list
+		var codes []dhcpv4.OptionCode
+		var cb []byte
+		for k := 1 + r.Rng.Intn(6); k > 0; k-- {
+			c := byte(1 + r.Rng.Intn(254))
+			dup := false
+			for _, x := range cb {
+				dup = dup || x == c
+			}
+			if !dup {
+				codes = append(codes, dhcpv4.GenericOptionCode(c))
+				cb = append(cb, c)
+			}
+		}
+		p.UpdateOption(dhcpv4.OptParameterRequestList(codes...))
+		expect("prl", "ParameterRequestList", p, [][]byte{someFlag, cb})
+		// classless static routes with canonical destinations (no bits beyond the prefix)
+		var routes []*dhcpv4.Route
+		rOut := [][]byte{someFlag}
+		for k := 1 + r.Rng.Intn(3); k > 0; k-- {
+			ones := r.Rng.Intn(33)
+			mask := net.CIDRMask(ones, 32)
+			ip := net.IP(r.Bytes(4)).Mask(mask)
+			gw := net.IP(r.Bytes(4))
+			routes = append(routes, &dhcpv4.Route{Dest: &net.IPNet{IP: ip, Mask: mask}, Router: gw})
+			rOut = append(rOut, []byte{byte(ones)}, ip, gw)
+		}
+		p.UpdateOption(dhcpv4.OptClasslessStaticRoute(routes...))
+		expect("routes", "ClasslessStaticRoute", p, rOut)
+		// relay agent information
+		sub1, sub2 := r.Bytes(1+r.Rng.Intn(6)), r.Bytes(1+r.Rng.Intn(6))
+		p.UpdateOption(dhcpv4.OptRelayAgentInfo(dhcpv4.OptGeneric(dhcpv4.GenericOptionCode(1), sub1), dhcpv4.OptGeneric(dhcpv4.GenericOptionCode(2), sub2)))
+		expect("relay-agent", "RelayAgentInfo", p, [][]byte{someFlag, {1}, sub1, {2}, sub2})
+		// search domains: fresh, then read - edit in place - set again
+		names, _ := r.validNames()
+		if len(names) == 0 {
+			names = []string{"a.example"}
+		}
+		p.UpdateOption(dhcpv4.OptDomainSearch(&rfc1035label.Labels{Labels: append([]string{}, names...)}))
+		expect("domain-search", "DomainSearch", p, append([][]byte{someFlag}, namesOut(names)...))
+		if q, err := dhcpv4.FromBytes(p.ToBytes()); err == nil {
+			if ls := q.DomainSearch(); ls != nil && len(ls.Labels) > 0 {
+				j := r.Rng.Intn(len(ls.Labels))
+				switch r.Rng.Intn(3) {
+				case 0:
+					ls.Labels[j] = "edited.example"
+				case 1:
+					if t, ok := toggleCase(ls.Labels[j]); ok {
+						ls.Labels[j] = t
+					} else {
+						ls.Labels[j] = "Edited.Example"
+					}
+				case 2:
+					ls.Labels = append(ls.Labels, "added.example")
+				}
+				want := append([]string{}, ls.Labels...)
+				q.UpdateOption(dhcpv4.OptDomainSearch(ls))
+				expect("domain-search-edited", "DomainSearch", q, append([][]byte{someFlag}, namesOut(want)...))
+			}
+		}
 	}
 	r.Extra["oracle_evaluations"] = evals
 	r.Extra["accessors"] = len(accessors)
